@@ -56,7 +56,11 @@ struct Sim {
   bool c14 = false; uint64_t fault_tick = 0; size_t fault_pending = 0; bool fault_in_cancel = false; std::string fault_where;
   // outermost-library-call tracking: the handling of a refused allocation lasts until the API call it happened in has returned
   int lib_depth = 0; uint64_t fault_closed_tick = 0;
-  struct LibCall { Sim &s; explicit LibCall(Sim &x) : s(x) { s.lib_depth++; } ~LibCall() { if (--s.lib_depth == 0 && s.fault_tick && !s.fault_closed_tick) s.fault_closed_tick = ++s.tick; } };
+  std::vector<std::pair<int, uint64_t>> cancel_watch;   // (request, tick of the cancel) - see do_cancel
+  void judge_cancel_watch() { for (auto &cw : cancel_watch) { auto it = reqs.find(cw.first); if (it == reqs.end()) continue; Req &r = it->second; if (c14 && fault_tick) continue;
+      if (r.calls == 0) violate("C01.pending-after-cancel", "request " + std::to_string(r.id) + " (" + r.kind + ") was pending when ares_cancel was called from a callback and had still not completed when the library call it happened in returned");
+      else if (r.status != ARES_ECANCELLED) violate("C01.completed-normally-after-cancel", "request " + std::to_string(r.id) + " (" + r.kind + ") was pending when ares_cancel was called, was not completed by it, and later completed with " + ares_strerror(r.status)); } cancel_watch.clear(); }
+  struct LibCall { Sim &s; explicit LibCall(Sim &x) : s(x) { s.lib_depth++; } ~LibCall() { if (--s.lib_depth == 0) { if (s.fault_tick && !s.fault_closed_tick) s.fault_closed_tick = ++s.tick; if (!s.cancel_watch.empty()) s.judge_cancel_watch(); } } };
   void on_alloc_fault() { fault_tick = ++tick; fault_pending = 0; for (auto &kv : reqs) if (kv.second.started && kv.second.accepted && kv.second.calls == 0) fault_pending++; fault_in_cancel = in_cancel; }
   void violate(const std::string &sig, const std::string &detail) { if (online.ok) { online.ok = false; online.sig = sig; online.detail = detail; } }
 
@@ -210,7 +214,10 @@ struct Sim {
     ares_cancel(ch);
     if (outer) {
       in_cancel = false;
-      for (int id : pend) { Req &r = reqs[id]; if (r.calls == 0 && !r.in_start && !(c14 && fault_tick > tick_before_cancel)) violate("C01.pending-after-cancel", "request " + std::to_string(id) + " (" + r.kind + ") was pending when ares_cancel was called and has not completed when it returned"); else if (r.calls == 1 && r.status != ARES_ECANCELLED && r.t_end == w.now_us && !r.in_start) { r.status_at_cancel = r.status; } r.pending_at_cancel = false; }
+      // A request whose own operation is somewhere up the call stack (ares_cancel was called from a callback that ran inside that request's send path) can only be
+      // completed while the stack unwinds: it is judged when the outermost library call returns (cancel_watch), and must then have completed with ARES_ECANCELLED.
+      if (lib_depth > 1) { for (int id : pend) if (reqs[id].calls == 0 && !reqs[id].in_start) cancel_watch.push_back({id, tick}); }
+      for (int id : pend) { Req &r = reqs[id]; if (r.calls == 0 && !r.in_start && lib_depth <= 1 && !(c14 && fault_tick > tick_before_cancel)) violate("C01.pending-after-cancel", "request " + std::to_string(id) + " (" + r.kind + ") was pending when ares_cancel was called and has not completed when it returned"); else if (r.calls == 1 && r.status != ARES_ECANCELLED && r.t_end == w.now_us && !r.in_start) { r.status_at_cancel = r.status; } r.pending_at_cancel = false; }
     }
   }
 
